@@ -157,13 +157,20 @@ impl<R> Archive<R> {
         let archive_chunks: Vec<ChunkDescriptor> = dictionary
             .chunk_descriptors
             .into_iter()
-            .map(|dict| ChunkDescriptor {
-                checksum: dict.checksum.into(),
-                archive_size: dict.archive_size as usize,
-                archive_offset: chunk_data_offset + dict.archive_offset,
-                source_size: dict.source_size,
+            .map(|dict| {
+                // The absolute location of the chunk must be representable.
+                let archive_offset = chunk_data_offset
+                    .checked_add(dict.archive_offset)
+                    .filter(|offset| offset.checked_add(u64::from(dict.archive_size)).is_some())
+                    .ok_or_else(|| ArchiveError::invalid_archive("chunk location out of range"))?;
+                Ok(ChunkDescriptor {
+                    checksum: dict.checksum.into(),
+                    archive_size: dict.archive_size as usize,
+                    archive_offset,
+                    source_size: dict.source_size,
+                })
             })
-            .collect();
+            .collect::<Result<_, ArchiveError<R::Error>>>()?;
         let chunker_params = dictionary
             .chunker_params
             .ok_or_else(|| ArchiveError::invalid_archive("invalid chunker parameters"))?;
